@@ -103,6 +103,7 @@ PROPS = {
                 "by strategies indep/superset/ablate/split/symmiss/degenerate with chosen state numbers; the antichain, congruence-depth and congruence-breadth selections are run through the CLI protocol "
                 "(SanitizeAutsForInclusion, then CheckInclusion), the antichain selection and the default overload also on unprepared operands; every verdict is compared with an exact reference "
                 "(pair exploration (q,S) over the subset construction of B, witness word re-validated). A watchdog turns a call that does not return on these tiny inputs into a no-verdict violation (10 s + 2 x 45 s). "
+                "1/64 of the cases take two of the word automata shipped in tests/fa_timbuk_armc (files < 60 kB) instead: the three selections must agree with each other and with the reference whenever it terminates within its cap. "
                 "Non-trivial: both languages contain a word of length >= 2 and some reached macro-state of B has >= 2 states. Distinct: hash of the case text.",
         "assumptions": COMMON_ASSUMPTIONS + ["congruence selections are only called on operands prepared by SanitizeAutsForInclusion (the dispatcher forms a disjoint union of its operands)",
                                               "SIM / EQUIV selections are not claimed by the property (FA ComputeSimulation is unusable) and are not exercised"],
